@@ -61,6 +61,10 @@ TUnm ==
      /\ Report(l, "P:C05:load", bad \cap {"valid-rejected"})
      /\ Report(l, "P:C20:input", bad \cap {"input-buffer-modified"})
      /\ LayerM => Report(l, "M:outcome", IF w[1] # e.err THEN {1} ELSE {})
+     \* the multi-step action: which critical sections the call passed (hook log)
+     /\ LayerM => Report(l, "M:stages",
+                         IF e.stages # <<"skip">> /\ e.stages # <<"nohooks">> /\ e.stages # UnmStages(e.sid, e.ver, cut)
+                         THEN {Len(e.stages)} ELSE {})
      \* the state follows the implementation where it returned success on a full
      \* stream, and is empty otherwise
      /\ inst' = IF e.err = "" /\ e.pan = "" /\ e.cut = -1 THEN Loaded(e.sid) ELSE Ext(EmptyC, inst.lv, 0)
